@@ -259,7 +259,27 @@ func runGoNode(rc *sk.RunCtx, focus string) {
 		}
 		if tp.Chance(1, 2) {
 			roles++
-			s.spawn(fmt.Sprintf("n%d.hs", i), func() { n.hsTick() })
+			// the handshake manager goroutine: timer ticks and the trigger channel (a new handshake's first packet is
+			// built here, allocateIndex included); it comes back a few times so that triggers posted by the tun
+			// reader during this phase are served during this phase
+			s.spawn(fmt.Sprintf("n%d.hs", i), func() {
+				hm := n.f.handshakeManager
+				for round := 0; round < 3; round++ {
+					for k := 0; k < 8; k++ {
+						select {
+						case a := <-hm.trigger:
+							hm.handleOutbound(a, true)
+							continue
+						default:
+						}
+						break
+					}
+					if round == 0 {
+						n.hsTick()
+					}
+					verifYield("hs:idle")
+				}
+			})
 		}
 		if tp.Chance(1, 3) {
 			roles++
